@@ -34,3 +34,14 @@ from sa.rules import det as D
 spec("C12", "output is a deterministic function of the input",
      [D.rule_det1, D.rule_det1b, D.rule_det2, D.rule_det3],
      "tmp", floors={})
+
+from sa.rules import visit as V
+
+spec("C15", "dotted locations",
+     [lambda p, r, t: V.rule_visit3(p, r, t, location_inductive=V.location_is_inductive), V.rule_visit4, V.rule_visit2, V.rule_visit6, V.rule_visit1],
+     "tmp", floors={})
+spec("C16", "bodies verbatim", [V.rule_visit5], "tmp")
+
+from sa.rules import align as A
+
+spec("C06", "emitted code valid", [A.rule_align_emit, A.rule_align_parse], "tmp")
